@@ -39,6 +39,13 @@ def main():
              "zooms": rng.choice([None, [10, 40], []]), "configs": configs(rng, ncfg, 1 + k % 2)}
         c["compress"] = 1 if c["compress"] else 0
         cases.append(c)
+    # many chromosomes, long ones followed by tiny contigs: more chromosomes than the parallel source keeps in flight (5),
+    # later ones finishing long before the front one
+    for k in range(4 if run.thorough else 2):
+        perchrom = [(6000 if i % 4 == 0 else 3) for i in range(rng.choice([9, 13, 21]))]
+        cases.append({"kind": "bw" if k % 2 == 0 else "bb", "perchrom": perchrom, "ips": 256, "bs": 256, "compress": 1, "zooms": None if k % 2 else [10, 40],
+                      "configs": [dict(c_, source=("iter" if j == 0 else "parallel"), threads=(1 if j == 0 else rng.choice([2, 4, 8])), rt=("current" if j == 0 else "multi"))
+                                  for j, c_ in enumerate(configs(rng, ncfg, 1 + k % 2))]})
     obs = run_harness("det", cases, run.wd, hang_timeout=120, shards=4)
     lines, classes = [], {}
     nruns = 0
